@@ -143,54 +143,78 @@ def run(ctx):
                        "may-raise analysis of Device.authenticate")
     ctx.trusted = ["AES / SHA-256 algebra (both sides derive the same key) is not decided", "library model"]
     # ---------------------------------------------------------------- C06.a
-    g = ctx.fn(f"{V3}._get_local_key")
-    file = g.module.rel
-    gs = summarize(prog, g)
-    key_p, data_p = g.params[1], g.params[2]
-    for pc, ret, node, rst in gs.returns:
-        if node is None:
-            continue
-        ctx.count("key_returns")
+    # The proof check, wherever it lives: in _get_local_key (analysed on its own), or - when a refactoring has split / inlined that
+    # function - in the inlined view of _LanProtocolV3.authenticate, where the value stored as the session key takes its place.
+    g = prog.funcs.get(f"{V3}._get_local_key")
+    pa0 = ctx.fn(f"{V3}.authenticate")
+    file = pa0.module.rel
+    proved_returns = 0
+
+    def check_proof(owner, pc, value, node, key_t, data_t):
+        """value: the derived key on this path; key_t: the configured key; data_t: the reply (None: taken from the comparison)"""
         facts = atoms(pc)
         proof = None
         for a, b in equality_atoms(facts):
             for x, y in ((a, b), (b, a)):
                 if meth_is(x, "digest") and call_is(x[1][1], "hashlib.sha256") and x[1][1][2]:
                     proof = (strip(x[1][1][2][0]), strip(y))
-        if not ctx.ob("C06.a", g.qual, proof is not None, "the session key is returned only after sha256(<decrypted half>) == <proof half> held",
-                      func=g.qual, file=file, node=node, detail={"facts": [show(f)[:100] for f in facts]},
+        if not ctx.ob("C06.a", owner, proof is not None, "the session key is returned only after sha256(<decrypted half>) == <proof half> held",
+                      func=owner, file=file, node=node, detail={"facts": [show(f)[:100] for f in facts]},
                       fail="a session key can be derived from a reply whose SHA-256 proof was not (fully) verified"):
-            continue
+            return None
         ctx.count("proofs")
         hashed, rx = proof
-        dec_ok = call_is(hashed, f"{SEC}.decrypt_aes_cbc") and strip(hashed[2][-2]) == ("param", key_p)
+        dec_ok = call_is(hashed, f"{SEC}.decrypt_aes_cbc") and strip(hashed[2][-2]) == key_t
         cr = slice_bounds(strip(hashed[2][-1])) if dec_ok else None
         rr = slice_bounds(rx)
+        if data_t is None and rr is not None:
+            data_t = strip(rr[0])
         # with the reply length fixed by a guard (len(data) == L), bounds counted from the end are positions from the start
-        L = next((b[1] for a, b in equality_atoms(facts) if call_is(strip(a), "len") and strip(strip(a)[2][0]) == ("param", data_p) and is_const(b) and isinstance(b[1], int)), None) or \
-            next((a[1] for a, b in equality_atoms(facts) if call_is(strip(b), "len") and strip(strip(b)[2][0]) == ("param", data_p) and is_const(a) and isinstance(a[1], int)), None)
+        L = next((b[1] for a, b in equality_atoms(facts) if call_is(strip(a), "len") and strip(strip(a)[2][0]) == data_t and is_const(b) and isinstance(b[1], int)), None) or \
+            next((a[1] for a, b in equality_atoms(facts) if call_is(strip(b), "len") and strip(strip(b)[2][0]) == data_t and is_const(a) and isinstance(a[1], int)), None)
 
         def fromstart(r):
             if r is None or L is None:
                 return r
             return (r[0],) + tuple((L + b if isinstance(b, int) and b < 0 else (None if b == L else b)) for b in r[1:])
         cr, rr = fromstart(cr), fromstart(rr)
-        part = cr is not None and rr is not None and strip(cr[0]) == ("param", data_p) == strip(rr[0]) and cr[1] in (None, 0) and cr[2] is not None \
+        part = cr is not None and rr is not None and strip(cr[0]) == data_t == strip(rr[0]) and cr[1] in (None, 0) and cr[2] is not None \
             and rr[1] == cr[2] and rr[2] is None and cr[2] == 32
-        ctx.ob("C06.a", g.qual, dec_ok and part, "proof = sha256(decrypt(key, reply[:32])) compared with reply[32:] (halves partition the reply, configured key)",
-               func=g.qual, file=file, node=node, detail={"hashed": show(hashed)[:120], "against": show(rx)},
+        ctx.ob("C06.a", owner, dec_ok and part, "proof = sha256(decrypt(key, reply[:32])) compared with reply[32:] (halves partition the reply, configured key)",
+               func=owner, file=file, node=node, detail={"hashed": show(hashed)[:120], "against": show(rx)},
                fail=f"the proof does not bind the reply to the configured key: hashes `{show(hashed)[:80]}`, compares with `{show(rx)}`")
         # the derived key comes from the verified plaintext
-        used = any(x == hashed for x in subterms(ret))
-        ctx.ob("C06.a", g.qual, used, "the returned key is derived from the verified plaintext", func=g.qual, file=file, node=node,
-               detail={"returns": show(ret)[:120]}, fail="the returned key is not computed from the plaintext whose proof was checked")
-        ctx.sample({"function": "_get_local_key", "proof": f"sha256({show(hashed)[:80]}) == {show(rx)}", "returns": show(ret)[:100]})
-    for pc, exc, node, rst in gs.raises:
-        ctx.ob("C06.a", g.qual, prog.exc_is(exc, AUTHERR), f"rejection raises {exc.split('.')[-1]}", func=g.qual, file=file, node=node,
-               fail=f"_get_local_key rejects with {exc}, not an AuthenticationError")
-    self_stores = [n for n in ast.walk(g.node) if isinstance(n, ast.Attribute) and isinstance(n.ctx, ast.Store) and isinstance(n.value, ast.Name) and n.value.id == g.params[0]]
-    ctx.ob("C06.a", g.qual, not self_stores, "_get_local_key stores nothing on self", func=g.qual, file=file, node=self_stores[0] if self_stores else None,
-           fail="_get_local_key writes session state before / regardless of the proof check")
+        used = any(x == hashed for x in subterms(value))
+        ctx.ob("C06.a", owner, used, "the returned key is derived from the verified plaintext", func=owner, file=file, node=node,
+               detail={"returns": show(value)[:120]}, fail="the returned key is not computed from the plaintext whose proof was checked")
+        ctx.sample({"function": owner.split(".")[-1], "proof": f"sha256({show(hashed)[:80]}) == {show(rx)}", "returns": show(value)[:100]})
+        return data_t if (dec_ok and part and used) else None
+
+    inline_reply = {}
+    if g is not None:
+        ctx.fn(g.qual)
+        gs = summarize(prog, g)
+        key_p, data_p = g.params[1], g.params[2]
+        for pc, ret, node, rst in gs.returns:
+            if node is None:
+                continue
+            ctx.count("key_returns")
+            check_proof(g.qual, pc, ret, node, ("param", key_p), ("param", data_p))
+        for pc, exc, node, rst in gs.raises:
+            ctx.ob("C06.a", g.qual, prog.exc_is(exc, AUTHERR), f"rejection raises {exc.split('.')[-1]}", func=g.qual, file=file, node=node,
+                   fail=f"_get_local_key rejects with {exc}, not an AuthenticationError")
+        self_stores = [n for n in ast.walk(g.node) if isinstance(n, ast.Attribute) and isinstance(n.ctx, ast.Store) and isinstance(n.value, ast.Name) and n.value.id == g.params[0]]
+        ctx.ob("C06.a", g.qual, not self_stores, "_get_local_key stores nothing on self", func=g.qual, file=file, node=self_stores[0] if self_stores else None,
+               fail="_get_local_key writes session state before / regardless of the proof check")
+    else:
+        ps0 = summarize(prog, pa0)
+        for pc, ret, node, rst in ps0.returns:
+            kv0 = rst.env.get(f"{pa0.params[0]}._local_key")
+            ctx.count("key_returns")
+            if kv0 is None:
+                ctx.ob("C06.a", pa0.qual, False, "", func=pa0.qual, file=file, construct="session key store", fail="authenticate completes without storing a session key")
+                continue
+            inline_reply[id(rst)] = check_proof(pa0.qual, pc, kv0, node, ("param", pa0.params[2]), None)
     # ---------------------------------------------------------------- C06.b protocol state
     pa = ctx.fn(f"{V3}.authenticate")
     for attr in ("_local_key", "_local_key_expiration"):
@@ -216,10 +240,25 @@ def run(ctx):
         ok_paths += 1
         kv = rst.env.get(f"{sp}._local_key")
         ev = rst.env.get(f"{sp}._local_key_expiration")
+        if g is None:
+            # (inlined form: the proof obligations above were evaluated on this very value)
+            rep = inline_reply.get(id(rst))
+            k_ok = kv is not None and rep is not None
+            ctx.ob("C06.b", pa.qual, k_ok, "the stored session key is the verified derivation", func=pa.qual, file=file, construct="self._local_key = ...",
+                   detail={"stored": show(kv)[:120] if kv else None}, fail="authenticate completes normally with an unverified _local_key")
+            if k_ok:
+                def ite_leaves0(x):
+                    x = strip(x)
+                    return ite_leaves0(x[2]) + ite_leaves0(x[3]) if x[0] == "ite" else [x]
+                from_read = all(any(call_is(y, f"{V3}.read") for y in subterms(x)) for x in ite_leaves0(rep))
+                ctx.ob("C06.b", pa.qual, from_read, "the verified reply is the one just read", func=pa.qual, file=file, construct="handshake reply", detail={"reply": show(rep)[:80]},
+                       fail="the proof is checked on something other than the handshake reply that was read")
+            kv = None
         k_ok = kv is not None and call_is(strip(kv), f"{V3}._get_local_key")
-        ctx.ob("C06.b", pa.qual, k_ok, "the stored session key is the value returned by _get_local_key (i.e. verified)", func=pa.qual, file=file,
-               construct="self._local_key = ...", detail={"stored": show(kv)[:120] if kv else None},
-               fail=f"authenticate completes normally with _local_key = `{show(kv)[:80] if kv else 'unchanged'}`, not the verified result of _get_local_key")
+        if g is not None:
+            ctx.ob("C06.b", pa.qual, k_ok, "the stored session key is the value returned by _get_local_key (i.e. verified)", func=pa.qual, file=file,
+                   construct="self._local_key = ...", detail={"stored": show(kv)[:120] if kv else None},
+                   fail=f"authenticate completes normally with _local_key = `{show(kv)[:80] if kv else 'unchanged'}`, not the verified result of _get_local_key")
         if k_ok:
             a = strip(kv)[2]
             # the reply handed to _get_local_key comes from read(); the key is the configured key parameter
